@@ -66,6 +66,10 @@ def zone_job(a):
         for y in range(2000, 2051):
             t = tzoracle.t_of(y)
             wins.append((t - DAY, t + DAY - 60, 60))
+        if tier == "thorough":
+            # every wall-clock minute of the fifty years
+            for y in range(2000, 2050):
+                wins.append((tzoracle.t_of(y), tzoracle.t_of(y + 1) - 60, 60))
         # the first and the last two days of the supported years, every minute, and their outermost seconds
         wins.append((lo_lim, lo_lim + 2 * DAY, 60))
         wins.append((hi_lim - 2 * DAY, hi_lim, 60))
